@@ -178,3 +178,73 @@ func DBModelS3(indexes []model.ClientIndex) model.DatabaseModel {
 	}
 	return dbm
 }
+
+// SchemaS4: references (C04, C02, C07, C01).
+const SchemaS4 = `{"name":"V","version":"1.0.0","tables":{
+ "Root":{"isRoot":true,"indexes":[["name"]],"columns":{
+   "name":{"type":"string"},
+   "num":{"type":"integer"},
+   "kids":{"type":{"key":{"type":"uuid","refTable":"Child","refType":"strong"},"min":0,"max":"unlimited"}},
+   "wk":{"type":{"key":{"type":"uuid","refTable":"Child","refType":"weak"},"min":0,"max":"unlimited"}},
+   "wopt":{"type":{"key":{"type":"uuid","refTable":"Child","refType":"weak"},"min":0,"max":1}},
+   "byk":{"type":{"key":{"type":"uuid","refTable":"Child","refType":"strong"},"value":"string","min":0,"max":"unlimited"}},
+   "byv":{"type":{"key":"string","value":{"type":"uuid","refTable":"Child","refType":"weak"},"min":0,"max":"unlimited"}}
+ }},
+ "Lim":{"isRoot":true,"columns":{
+   "wk1":{"type":{"key":{"type":"uuid","refTable":"Child","refType":"weak"},"min":1,"max":"unlimited"}}
+ }},
+ "Child":{"columns":{
+   "name":{"type":"string"},
+   "next":{"type":{"key":{"type":"uuid","refTable":"Child","refType":"strong"},"min":0,"max":1}}
+ }}}}`
+
+// Root4, Lim4, Child4 map SchemaS4.
+type Root4 struct {
+	UUID string            `ovsdb:"_uuid"`
+	Name string            `ovsdb:"name"`
+	Num  int               `ovsdb:"num"`
+	Kids []string          `ovsdb:"kids"`
+	Wk   []string          `ovsdb:"wk"`
+	Wopt *string           `ovsdb:"wopt"`
+	Byk  map[string]string `ovsdb:"byk"`
+	Byv  map[string]string `ovsdb:"byv"`
+}
+
+type Lim4 struct {
+	UUID string   `ovsdb:"_uuid"`
+	Wk1  []string `ovsdb:"wk1"`
+}
+
+type Child4 struct {
+	UUID string  `ovsdb:"_uuid"`
+	Name string  `ovsdb:"name"`
+	Next *string `ovsdb:"next"`
+}
+
+// Child UUIDs.
+const (
+	C1 = "c1c1c1c1-1111-4111-8111-111111111111"
+	C2 = "c2c2c2c2-2222-4222-8222-222222222222"
+	C3 = "c3c3c3c3-3333-4333-8333-333333333333"
+	L1 = "a1a1a1a1-1111-4111-8111-111111111111"
+	// Dangling names no row.
+	Dangling = "dddddddd-dddd-4ddd-8ddd-dddddddddddd"
+)
+
+// ClientModelS4 returns the client model for SchemaS4.
+func ClientModelS4() model.ClientDBModel {
+	cm, err := model.NewClientDBModel("V", map[string]model.Model{"Root": &Root4{}, "Lim": &Lim4{}, "Child": &Child4{}})
+	if err != nil {
+		panic("fix: " + err.Error())
+	}
+	return cm
+}
+
+// DBModelS4 builds the database model for SchemaS4.
+func DBModelS4() model.DatabaseModel {
+	dbm, errs := model.NewDatabaseModel(MustSchema(SchemaS4), ClientModelS4())
+	if len(errs) > 0 {
+		panic("fix: " + errs[0].Error())
+	}
+	return dbm
+}
